@@ -124,6 +124,13 @@ CLAIMED["C16"] = ("DESIGN.md §4 C16",
     "item the lookup found; the handler calls set only when size_limit >= len, through the write guard, with the bytes it serves, and a hit serves body and type of one cached item. "
     "Operation histories and clock anomalies are not decided.")
 
+CLAIMED["C17"] = ("DESIGN.md §4 C17",
+    "R-DOM / R-FLOW (Session::valid established, via Option::filter closure or dominating test, before a token-identified session is confirmed or extended), R-FLOW (token bytes <- OsRng, hex of all 32), R-DOM (one live session; auth route handler under the Ok edge), R-SIBLING (create/verify share the Argon2 constructor and pepper), comparison normalisation (strict expiry)",
+    "Decides: every AuthProvider method that looks a user up by token confirms or extends the session only after Session::valid held; tokens are the hex of 32 bytes filled by "
+    "OsRng; a new session is stored only when the current one is not valid; sessions are a field of User and removal/invalidate clear them; with_auth_route runs the handler only "
+    "under the Ok edge of get_uid_by_token(cookie HumphreyToken) with that uid and answers 401 otherwise; create and verify use create_argon2_instance(pepper) with "
+    "self.config.pepper; valid() is the strict now < expiry. Argon2 and token uniqueness are not decided.")
+
 NOT_YET = {}
 
 NOT_APPLICABLE = {
